@@ -175,6 +175,10 @@ NOT_YET = {}
 
 # document-level theorems added in the last third of the build: appended to the level text / replacing notes that went stale
 EXTRA_TEXT = {
+    'C01': ' Text level (C01Norm, partial): C01_normal_form_fixed_point / C01_normalForm_idem - for every text, parser and class of cells whose exported texts round-trip, replacing every '
+           'data cell by the exported text of its token keeps the spine paths and is idempotent; not proved: that deleting comment lines, all-null lines and unsupported columns keeps the paths.',
+    'C18': ' Inside documents (C18Doc): C18_cell_in_document - with the importer\'s cell parser instantiated by the spine-importer dispatch every data cell of a non-kern spine carries the token of '
+           'the single rule for (its own header, its own text); C18_same_text_two_spines.',
     'C02': ' Document level (C02Tree, C02Tok): C02_tree - for every cell parser and every text without surplus cells a successful import has exactly the skeleton of an '
            'independent spine-path tracker (one stage per non-empty line, one node per cell, parent = the cell above on the same spine path, header = the ** cell of its spine); '
            'C02_import_succeeds (such texts without *x always import); C02_tokens (every node carries the token its own spine\'s importer makes of its own cell). The harness '
